@@ -170,6 +170,85 @@ def formatDecimal (g : Grouping) (width : Nat) (n : Nat) : Str :=
   let pad := applyGrouping g (decimalDigits 0)
   if width > s.length then (List.replicate (width - s.length) pad).flatten ++ s else s
 
+/-! ## Traditional numbering: `traditionalAlphaCount` over a `NumberingBundle` (ElemNumber.cpp:1066-1326) -/
+
+/-- `table[lookupIndex]` of the local copy `table[0] = letters.back(), table[j+1] = letters[j]` -/
+def tradTableAt (letters : List Nat) (li : Nat) : Nat :=
+  if li = 0 then letters.getLastD 0 else letters.getD (li - 1) 0
+
+/-- inner `while (k < groupsSize)` of the multiplicative part: the first group with `mult / groups[k] > 0` decides; the
+rest of `mult` is dropped.  `none` = `fError`. -/
+def tradMultGroup (b : NumberingBundle) (mult multChar : Nat) (lastMultiplier : Bool) : List (Nat × Nat) → Option (List Nat)
+  | [] => some []
+  | (g, t) :: rest =>
+    if mult / g = 0 then tradMultGroup b mult multChar lastMultiplier rest
+    else
+      let letters := b.digitsTable.getD t []
+      let li := mult / g
+      if li < letters.length + 1 then
+        if b.multiplierPrecedes then some [multChar, tradTableAt letters li]
+        else if li = 1 ∧ lastMultiplier then some [multChar]
+        else some [tradTableAt letters li, multChar]
+      else none
+
+/-- the do/while over the multipliers, entered at the first multiplier not greater than the value (the empty zero
+character: a multiplier greater than the remaining value is skipped) -/
+def tradMultLoop (b : NumberingBundle) : List (Nat × Nat) → Nat → List Nat → Option (List Nat × Nat)
+  | [], v, acc => some (acc, v)
+  | (m, ch) :: rest, v, acc =>
+    if v < m then tradMultLoop b rest v acc
+    else
+      match tradMultGroup b (v / m) ch rest.isEmpty (b.groups.zip b.tables) with
+      | none => none
+      | some s => tradMultLoop b rest (v % m) (acc ++ s)
+
+/-- the additive part: one letter per group that divides into the value -/
+def tradAdditive (b : NumberingBundle) : List (Nat × Nat) → Nat → List Nat → Option (List Nat)
+  | [], _, acc => some acc
+  | (g, t) :: rest, v, acc =>
+    if v / g = 0 then tradAdditive b rest v acc
+    else
+      let letters := b.digitsTable.getD t []
+      let li := v / g
+      if li < letters.length + 1 then tradAdditive b rest (v % g) (acc ++ [tradTableAt letters li])
+      else none
+
+/-- `ElemNumber::traditionalAlphaCount(theValue, bundle, theResult)`; `fError` gives `s_errorString` -/
+def traditionalAlphaCount (b : NumberingBundle) (v : Nat) : Str :=
+  match tradMultLoop b (b.multipliers.zip b.multiplierChars) v [] with
+  | none => errorString
+  | some (acc, v') =>
+    match tradAdditive b (b.groups.zip b.tables) v' acc with
+    | none => errorString
+    | some s => s
+
+/-- value of one letter of the bundle: (position in its table + 1) × the group of that table -/
+def tradLetterValue (b : NumberingBundle) (c : Nat) : Option Nat :=
+  (b.groups.zip b.tables).findSome? fun (g, t) =>
+    match (b.digitsTable.getD t []).idxOf? c with
+    | some i => some ((i + 1) * g)
+    | none => none
+
+/-- reading of a traditional numeral (specification side; uses the letter values only): a multiplier character
+multiplies the letter that follows it (multiplier-precedes order), everything is added.  `pend` = a multiplier
+character has just been read. -/
+def decodeTradGo (b : NumberingBundle) : Str → Option Nat → Nat → Option Nat
+  | [], none, acc => some acc
+  | [], some _, _ => none
+  | c :: rest, some m, acc =>
+    match tradLetterValue b c with
+    | some x => decodeTradGo b rest none (acc + m * x)
+    | none => none
+  | c :: rest, none, acc =>
+    match (b.multiplierChars.zip b.multipliers).find? (fun p => p.1 == c) with
+    | some (_, m) => decodeTradGo b rest (some m) acc
+    | none =>
+      match tradLetterValue b c with
+      | some x => decodeTradGo b rest none (acc + x)
+      | none => none
+
+def decodeTraditional (b : NumberingBundle) (s : Str) : Option Nat := decodeTradGo b s none 0
+
 /-! ## `getFormattedNumber` -/
 
 /-- numbering types for which `getFormattedNumber` raises "numbering format not supported" -/
@@ -183,9 +262,11 @@ def getFormattedNumber (g : Grouping) (numberType width n : Nat) : Option Str :=
   else if numberType = 105 then (toRoman n).map toLowerASCII
   else if numberType ∈ unsupportedTypes then none
   else if numberType = 0x03B1 then
-    -- Greek: letter-value="alphabetic" counts with `s_elalphaCountTable`; "traditional" (`traditionalAlphaCount` over the
-    -- resource bundle) is not modelled; any other value is an XSLT error
-    if g.letterValue = 1 then int2alphaCount elalphaTable n else none
+    -- Greek: letter-value="alphabetic" counts with `s_elalphaCountTable`, "traditional" with `traditionalAlphaCount` over
+    -- `s_elalphaResourceBundle`; any other value is an XSLT error
+    if g.letterValue = 1 then int2alphaCount elalphaTable n
+    else if g.letterValue = 2 then some (traditionalAlphaCount elalphaBundle n)
+    else none
   else if g.rawSepLen > 1 then none              -- error raised by getNumberFormatter (decimal branch only)
   else some (formatDecimal g width n)
 
